@@ -7,9 +7,11 @@
 //!
 //! case `(20 npre npost (l0 … ln) (shape_0 … shape_{p-1}))` — "shaped rows": the row of key `k` is the
 //! view described by `shape_{k mod p}`, every child position type-erased with `into_any()`:
-//!   s ::= (0) text | (1) `()` | (2) `<span>` | (3 s s [s]) tuple | (4 s…) keyed list (keys 0.., one item
-//!         per s) | (5 s…) Vec | (6) None | (6 s) Some | (7 side s) Either | (8 branch s) EitherOf3
-//!       | (9 s [s [s]]) array | (10 s…) StaticVec (non-empty)
+//!   s ::= (0 [kind]) text: kind 0 String, 1 &'static str, 2 Arc<str>, 3 Cow<'static, str>, 4 i64 (the
+//!         number key·10^6 + gen·10^3 + j) | (1) `()` | (2) `<span>` | (3 s s [s]) tuple
+//!       | (4 s…) keyed list (keys 0.., one item per s) | (5 s…) Vec | (6) None | (6 s) Some | (7 side s) Either
+//!       | (8 branch s) EitherOf3 | (9 s [s [s]]) array | (10 s…) StaticVec (non-empty)
+//!       | (11) Err / (11 s) Ok of a `Result` | (12 show_b s s) EitherKeepAlive { a: Some, b: Some, show_b }
 //! so that a row can BE a keyed list (nested lists) or start with a list / Option / Either / … whose
 //! `Mountable::insert_before_this` the outer `apply_diff` calls when it moves or adds a row in front
 //! of it.  A text / span node of the row is labelled `key.gen.j`, `j` = its index among ALL the
@@ -90,6 +92,11 @@ fn label(n: &Node) -> (i64, i64, i64) {
     if let Some(r) = t.strip_prefix("POST") {
         return (-2, 0, r.parse().unwrap());
     }
+    if !t.contains('.') {
+        // an i64 row: key·10^6 + gen·10^3 + j
+        let n: i64 = t.parse().unwrap();
+        return (n / 1_000_000, (n / 1000) % 1000, n % 1000);
+    }
     let p: Vec<i64> = t.split('.').map(|x| x.parse().unwrap()).collect();
     (p[0], p[1], p[2])
 }
@@ -142,6 +149,15 @@ fn go<V: Render>(c: &Sexp, mk: impl Fn(i64, i64) -> V + Copy) -> Sexp {
     Lst(out)
 }
 
+#[derive(Debug, Clone)]
+struct Boom;
+impl std::fmt::Display for Boom {
+    fn fmt(&self, f: &mut std::fmt::Formatter<'_>) -> std::fmt::Result {
+        f.write_str("boom")
+    }
+}
+impl std::error::Error for Boom {}
+
 /// the view of one shaped row; `j` counts the top-level nodes the row owns, in mount order
 fn shaped(s: &Sexp, k: i64, g: i64, j: &mut i64) -> AnyView {
     let mut label = |j: &mut i64| {
@@ -151,7 +167,35 @@ fn shaped(s: &Sexp, k: i64, g: i64, j: &mut i64) -> AnyView {
     };
     let args = &s.list()[1..];
     match s.at(0).num() {
-        0 => label(j).into_any(),
+        0 => match args.first().map(|a| a.num()).unwrap_or(0) {
+            0 => label(j).into_any(),
+            1 => {
+                let t: &'static str = Box::leak(label(j).into_boxed_str());
+                t.into_any()
+            }
+            2 => std::sync::Arc::<str>::from(label(j).as_str()).into_any(),
+            3 => std::borrow::Cow::<'static, str>::Owned(label(j)).into_any(),
+            _ => {
+                let n = k * 1_000_000 + g * 1000 + *j;
+                *j += 1;
+                n.into_any()
+            }
+        },
+        11 => match args.first() {
+            Some(x) => Ok::<AnyView, Boom>(shaped(x, k, g, j)).into_any(),
+            None => {
+                *j += 1;
+                Err::<AnyView, Boom>(Boom).into_any()
+            }
+        },
+        12 => {
+            // both sides are built, only the shown one is mounted
+            let show_b = s.at(1).num() != 0;
+            let mut hidden = 0;
+            let a = shaped(s.at(2), k, g, if show_b { &mut hidden } else { &mut *j });
+            let b = shaped(s.at(3), k, g, if show_b { &mut *j } else { &mut hidden });
+            tachys::view::either::EitherKeepAlive::<AnyView, AnyView> { a: Some(a), b: Some(b), show_b }.into_any()
+        }
         1 => {
             *j += 1;
             ().into_any()
